@@ -2,6 +2,7 @@ package main
 
 import (
 	"fmt"
+	"hash/fnv"
 	"go/token"
 	"go/types"
 	"os"
@@ -38,6 +39,7 @@ type Program struct {
 	GoStmts   []string
 	tagMu     sync.Mutex
 	ptrTags   []int
+	tagsFrozen bool
 	Globals   []string
 }
 
@@ -104,6 +106,7 @@ func loadProgram(repo, verif string) (*Program, error) {
 		}
 	}
 	p.preassignTags()
+	p.tagsFrozen = true
 	p.scanStructure()
 	return p, nil
 }
@@ -237,6 +240,17 @@ func (p *Program) tagOf(t types.Type) int {
 		return n
 	}
 	n := len(p.tags) + 1
+	if p.tagsFrozen {
+		// types met later (e.g. *strconv.NumError) get a number derived from their name, independent of the order in which functions are processed
+		h := fnv.New32a()
+		h.Write([]byte(k))
+		n = 1000 + int(h.Sum32()%1000000)
+		for _, o := range p.tags {
+			if o == n {
+				panic("dynamic type tag collision")
+			}
+		}
+	}
 	p.tags[k] = n
 	p.tagList = append(p.tagList, k)
 	return n
